@@ -17,7 +17,8 @@ RULE = ("MDP specs: discounted (any structure, implicit+explicit absorbing state
         "randomize_action_order x randomize_nextstate_order. Oracle: policy-enumeration V*, exact evaluation of the "
         "returned policy over its own closure, listener invariant after every main-loop iteration. Non-trivial: >=3 "
         "reachable states, a stochastic action, inexact heuristic and >=2 expansions; distinct by spec hash."
-        ' Also: MDPs of 16-45 states, None as an action label, heuristic-relative ties.')
+        ' Also: MDPs of 16-45 states, None as an action label, heuristic-relative ties.'
+        ' 150-260-state problems.')
 ASSUMPTIONS = ["reference V* by deterministic-policy enumeration (certified by Bellman residual)", "tolerance 1e-8 "
                "(LAO* rounds action values to 10 decimals)"]
 TOL = 1e-8
